@@ -891,8 +891,8 @@ func derefsOf(v ssa.Value) []ssa.Instruction {
 }
 
 var c09NilExceptions = map[string]string{
-	"gov.(*GovCtrler).doPunish:deref:recv.proposalLedger.GetFinality(next(range(new([]ledger.LedgerKey))))#0":                           "keys were collected from the same committed tree in the loop just above (IterateReadAllFinalityItems) and nothing deletes proposals in between",
-	"evm.(*EVMCtrler).ExecuteTrx:deref:p0.AcctHandler.FindAccount(new(common.Address)[:], p0.Exec)": "the created contract address was added to the access list by the EVM's create (Berlin rules are active from block 0), so StateDBWrapper.Finish has just created/marked that account in the same overlay",
+	"gov.(*GovCtrler).doPunish:deref:recv.proposalLedger.GetFinality(next(range(new([]ledger.LedgerKey))))#0": "keys were collected from the same committed tree in the loop just above (IterateReadAllFinalityItems) and nothing deletes proposals in between",
+	"evm.(*EVMCtrler).ExecuteTrx:deref:p0.AcctHandler.FindAccount(new(common.Address)[:], p0.Exec)":           "the created contract address was added to the access list by the EVM's create (Berlin rules are active from block 0), so StateDBWrapper.Finish has just created/marked that account in the same overlay",
 }
 
 func p4(w *World, r *Report, reach *Reach, scope []*ssa.Function) {
